@@ -20,6 +20,12 @@ EVS = ["alpha", "beta", "gamma", "delta"]
 POOL = ["sm", "model", "l1", "l2", "l3", "l4"]
 
 
+def registered(d, cb):
+    """Mirror of Registered() in Engine.tla: a naming-convention callback of an event that no transition
+    carries is never registered."""
+    return cb["okind"] != "E" or any(cb["owner"] in t["evs"] for t in d["trans"])
+
+
 def scenario(rng, findings=False):
     """findings=True keeps the shapes of the known findings F5/F7/F14/F17 (a few dedicated scenarios);
     otherwise those shapes are avoided so that every trace is checked to its end."""
@@ -84,7 +90,8 @@ def scenario(rng, findings=False):
         guard_provs = {cb["prov"] for cb in d["cbs"] if cb["group"] == "cond"}
         late[i] += [p for p in ctor if p not in ("sm", "model") and rng.random() < 0.5
                     and (findings or p not in guard_provs)]   # re-attachment (F14: of a guard provider)
-        if not findings and not has_coro:
+        ctor_async = any(cb["coro"] and cb["prov"] in ctor and registered(d, cb) for cb in d["cbs"])
+        if not findings and not ctor_async:
             # F7: a listener with coroutine methods added late to a machine that runs the sync engine
             late[i] = [p for p in late[i] if not any(cb["coro"] and cb["prov"] == p for cb in d["cbs"])]
     for _ in range(rng.randint(4, 14)):
@@ -114,12 +121,12 @@ def featurize(scn, res, v):
     for ln in lines[:k + 1]:
         if ln["e"] == "new":
             seen[ln["i"]] = set(ln["provs"])
-            ctor_async = any(cb["coro"] and cb["prov"] in seen[ln["i"]] for cb in d["cbs"])
+            ctor_async = any(cb["coro"] and cb["prov"] in seen[ln["i"]] and registered(d, cb) for cb in d["cbs"])
         if ln["e"] == "call" and ln["api"] == "add_listener":
             if ln["v"] in seen.get(ln["i"], set()):
                 readded = True
             seen.setdefault(ln["i"], set()).add(ln["v"])
-            if any(cb["coro"] and cb["prov"] == ln["v"] for cb in d["cbs"]) and not ctor_async:
+            if any(cb["coro"] and cb["prov"] == ln["v"] and registered(d, cb) for cb in d["cbs"]) and not ctor_async:
                 late_async = True
     # the transition whose guards were being evaluated when the execution left the specification
     start = max((j for j, ln in enumerate(lines[:k + 1]) if ln["e"] == "call"), default=0)
